@@ -23,7 +23,7 @@ def rename(p, k):
 
     def walk(x):
         if isinstance(x, dict):
-            if x.get("e") == "call" and x["f"] in names:
+            if x.get("e") in ("call", "fnref") and x["f"] in names:
                 x["f"] = "p%d_%s" % (k, x["f"])
             for v in x.values():
                 walk(v)
@@ -74,7 +74,7 @@ def run(chk):
                        "shifts, casts, bool with short-circuit operators, arrays, nested structs, functions, "
                        "if / while / loop, labeled blocks with values, break / continue with and without labels, "
                        "early return, defer, copy semantics of aggregates, optionals / enums with switch, #unwrap, "
-                       "#is_variant, .try, pointers to variables / fields / elements with stores through them "
+                       "#is_variant, .try, error unions, chars, slices, function values and local lambdas, pointers to variables / fields / elements with stores through them "
                        "in the same frame and from callees; some end in an out-of-range index); "
                        "each one executed and validated against the TLA+ interpreter")
 
@@ -87,7 +87,7 @@ def run_programs(chk, progs, tag):
     texts = {}
     for k, (p, f) in enumerate(progs):
         q = rename(p, k)
-        texts[k] = "\n".join(R().fn(fn) for fn in q["fns"])
+        texts[k] = "\n".join(R().fn(fn) for fn in q["fns"] if not fn.get("local"))
 
     def batch_src(ks):
         calls = "\n".join("    { s_ := p%d_main(); putchar(35); emit(^s_, 4); nl(); }" % k for k in ks)
